@@ -1,8 +1,11 @@
 from core import Unit as U
 HASH = ["secp256k1_sha256_write", "secp256k1_sha256_finalize"]
+# EVERY callee that is not the real body (audit2 #11): oracle stubs, sha256 stream stubs, byte readers, gej_set_ge adapter
 ORACLES = ["secp256k1_ge_set_xquad", "secp256k1_fe_impl_is_square_var", "secp256k1_gej_add_ge_var", "secp256k1_gej_add_var",
-           "secp256k1_gej_double_var", "secp256k1_pedersen_ecmult_small", "secp256k1_borromean_verify"]
-RW_ORACLES = ["secp256k1_pedersen_ecmult", "secp256k1_rangeproof_genrand", "secp256k1_scalar_mul", "secp256k1_scalar_inverse"]
+           "secp256k1_gej_double_var", "secp256k1_pedersen_ecmult_small", "secp256k1_borromean_verify",
+           "secp256k1_sha256_write", "secp256k1_sha256_finalize", "secp256k1_scalar_set_b32", "secp256k1_fe_impl_set_b32_limit", "secp256k1_gej_set_ge"]
+RW_ORACLES = ["secp256k1_pedersen_ecmult", "secp256k1_rangeproof_genrand", "secp256k1_scalar_mul", "secp256k1_scalar_inverse",
+              "memcpy", "memset", "secp256k1_scalar_clear", "secp256k1_memclear_explicit"]
 VLOOPS = ["secp256k1_rangeproof_verify_impl.0:33", "secp256k1_rangeproof_verify_impl.1:33", "secp256k1_rangeproof_verify_impl.2:33",
           "secp256k1_rangeproof_verify_impl.3:129", "secp256k1_rangeproof_pub_expand.0:20", "secp256k1_rangeproof_pub_expand.1:5",
           "secp256k1_rangeproof_pub_expand.2:33"]
